@@ -3,6 +3,7 @@ package regs
 import (
 	"context"
 	"errors"
+	"fmt"
 	"net"
 	"sync"
 	"time"
@@ -43,19 +44,21 @@ type rawPeer struct {
 	settledAt  time.Time
 	scriptDone chan struct{}
 
-	mu       sync.Mutex
-	calls    []Call
-	nSync    int
-	syncAt   time.Time
-	probes   int
-	closed   bool // the connection was closed (by the runtime, before teardown)
-	closedAt time.Time
-	tearing  bool
-	regTried bool
-	regErr   string
-	regAtMs  float64
-	regDurMs float64
-	attempts []AttemptRecord
+	mu         sync.Mutex
+	calls      []Call
+	nSync      int
+	syncAt     time.Time
+	probes     int
+	closed     bool // the connection was closed (by the runtime, before teardown)
+	closedAt   time.Time
+	tearing    bool
+	regTried   bool
+	regErr     string
+	regAtMs    float64
+	regDurMs   float64
+	attempts   []AttemptRecord
+	wire       []WireRequest
+	wireSyncAt time.Time
 }
 
 func newRawPeer(socket string, pos int, spec Peer) (*rawPeer, error) {
@@ -80,7 +83,15 @@ func newRawPeer(socket string, pos int, spec Peer) (*rawPeer, error) {
 		p.mux.Close()
 		return nil, err
 	}
-	api.RegisterPluginService(p.srv, p)
+	switch spec.Stall {
+	case stallNoService: // a ttRPC server without any service
+	case stallNoConfigure:
+		registerPluginServiceWithout(p.srv, p, "Configure")
+	case stallNoSynchronize:
+		registerPluginServiceWithout(p.srv, p, "Synchronize")
+	default:
+		api.RegisterPluginService(p.srv, p)
+	}
 	cconn, err := p.mux.Open(multiplex.RuntimeServiceConn)
 	if err != nil {
 		p.mux.Close()
@@ -94,7 +105,24 @@ func newRawPeer(socket string, pos int, spec Peer) (*rawPeer, error) {
 // serve starts the Plugin service. t0 is the common time origin of the case.
 func (p *rawPeer) serve(t0 time.Time) {
 	p.t0 = t0
-	go p.srv.Serve(context.Background(), p.lis)
+	go p.srv.Serve(context.Background(), &tapListener{Listener: p.lis, onRequest: p.wireRequest})
+}
+
+// wireRequest records a request message seen on the wire (handler or not).
+func (p *rawPeer) wireRequest(service, method string) {
+	if service != pluginServiceName {
+		method = service + "/" + method
+	}
+	now := time.Now()
+	p.mu.Lock()
+	p.wire = append(p.wire, WireRequest{Method: method, AtMs: p.ms(now)})
+	if method == "Synchronize" && p.wireSyncAt.IsZero() {
+		p.wireSyncAt = now
+	}
+	p.mu.Unlock()
+	if method == "Synchronize" {
+		p.settle() // like the handler: the runtime got as far as synchronizing this peer
+	}
 }
 
 func (p *rawPeer) ms(t time.Time) float64 { return float64(t.Sub(p.t0).Microseconds()) / 1000 }
@@ -268,7 +296,7 @@ func (p *rawPeer) Configure(ctx context.Context, req *api.ConfigureRequest) (*ap
 		<-p.release // ignores its context: never answers while the case runs
 		return nil, errors.New("verif: released at teardown")
 	case stallCfgErr:
-		return nil, errors.New("verif: plugin refuses its configuration")
+		return nil, answerError(p.spec, "its configuration")
 	}
 	return &api.ConfigureResponse{Events: p.spec.Mask}, nil
 }
@@ -276,6 +304,9 @@ func (p *rawPeer) Configure(ctx context.Context, req *api.ConfigureRequest) (*ap
 func (p *rawPeer) Synchronize(ctx context.Context, req *api.SynchronizeRequest) (*api.SynchronizeResponse, error) {
 	p.record(Call{Kind: "Synchronize"})
 	p.settle()
+	if p.spec.Stall == stallSyncErr {
+		return nil, answerError(p.spec, "to synchronize")
+	}
 	return &api.SynchronizeResponse{More: req.GetMore()}, nil
 }
 
@@ -326,6 +357,12 @@ func (p *rawPeer) teardown() {
 	}
 }
 
+// WireRequest is a ttRPC request message that arrived on the peer's Plugin service connection.
+type WireRequest struct {
+	Method string  `json:"method"`
+	AtMs   float64 `json:"at_ms"`
+}
+
 // AttemptRecord is one RegisterPlugin call of a multi-attempt peer.
 type AttemptRecord struct {
 	Name   string  `json:"name"`
@@ -333,6 +370,17 @@ type AttemptRecord struct {
 	AtMs   float64 `json:"at_ms"`
 	TookMs float64 `json:"took_ms"`
 	Err    string  `json:"result"`
+}
+
+// wireMethods returns the methods of all requests that arrived, in order.
+func (p *rawPeer) wireMethods() []string {
+	p.mu.Lock()
+	defer p.mu.Unlock()
+	var m []string
+	for _, w := range p.wire {
+		m = append(m, w.Method)
+	}
+	return m
 }
 
 // PeerRecord is what a peer saw, for the oracle and the replay file.
@@ -352,6 +400,8 @@ type PeerRecord struct {
 	Probes     int             `json:"probes"`
 	Calls      []Call          `json:"calls"`
 	Attempts   []AttemptRecord `json:"register_attempts,omitempty"`
+	// Wire: methods of all requests that arrived (probes summarised like Calls)
+	Wire []string `json:"wire_requests,omitempty"`
 }
 
 func (p *rawPeer) snapshot() PeerRecord {
@@ -368,6 +418,13 @@ func (p *rawPeer) snapshot() PeerRecord {
 	}
 	if p.nSync > 0 {
 		r.SyncAtMs = p.ms(p.syncAt)
+	}
+	for i, w := range p.wire {
+		if i >= 24 {
+			r.Wire = append(r.Wire, fmt.Sprintf("... %d more", len(p.wire)-i))
+			break
+		}
+		r.Wire = append(r.Wire, w.Method)
 	}
 	// probes are summarised by their count; keep the first few calls of each kind readable
 	np := 0
